@@ -165,7 +165,9 @@ def _gen_mps(w, wires, big=False):
         return [["density_matrix", sorted(w.sample(wires, w.randint(1, min(4, len(wires)))))]]
     for _ in range(w.randint(1, 2)):
         r = w.random()
-        if r < 0.5:
+        if r < 0.08:
+            mps.append(["expval", ["HB", w.getrandbits(24), w.sample(wires, w.randint(1, min(2, len(wires)))), []]])
+        elif r < 0.5:
             mps.append(["expval", qgen.gen_obs(w, wires)])
         elif r < 0.65:
             mps.append(["var", qgen.gen_pauli_word(w, wires)])
@@ -206,13 +208,28 @@ def _mutate(w, tape, n):
     arr_sites = [(pth, leaf) for pth, leaf in all_sites if isinstance(leaf[2][0], dict)]
     arr_obs = [i for i, m in enumerate(t["mps"]) if m[0] == "expval" and m[1][0] in ("HB", "SPH")]
     kind = w.choice(["dup", "shift", "shift", "shift", "relabel", "trainable", "wrap", "unwrap",
-                     "measure", "measure", "delta", "swapops", "rename", "wrap_shift", "ctrl_perm"])
+                     "measure", "measure", "delta", "swapops", "rename", "wrap_shift", "ctrl_perm", "obs_delta"])
     multi_ctrl = [i for i, o in enumerate(t["ops"]) if o[0] == "ctrl" and len(o[2]) >= 2]
     if multi_ctrl and w.random() < 0.5:
         kind = "ctrl_perm"
     if (arr_sites or arr_obs) and w.random() < 0.6:
         kind = "arr_bump"
     if kind == "dup":
+        return t, kind
+    if kind == "obs_delta":
+        # the same circuit, one coefficient of the measured observable changed a little
+        cands = [i for i, m in enumerate(t["mps"]) if m[0] in ("expval", "var") and m[1][0] in ("L", "SP")]
+        if cands:
+            i = w.choice(cands)
+            ob = t["mps"][i][1]
+            dl = w.choice([1e-3, -0.25, 1e-5, 1e-7])
+            if ob[0] == "SP":
+                t["mps"][i] = [t["mps"][i][0], ["SP", round(ob[1] + dl, 12), ob[2], ob[3]]]
+            else:
+                terms = [list(x) for x in ob[1]]
+                j = w.randrange(len(terms))
+                terms[j][0] = round(terms[j][0] + dl, 12)
+                t["mps"][i] = [t["mps"][i][0], ["L", terms]]
         return t, kind
     if kind == "ctrl_perm":
         # the same controlled gate with its control wires listed in another order while the control values
@@ -289,7 +306,7 @@ def _mutate(w, tape, n):
                 break
         return t, kind
     if kind == "measure":
-        t["mps"] = _gen_mps(w, wires, bool(arr_obs))
+        t["mps"] = _gen_mps(w, wires, bool(arr_obs) and len(wires) >= 5)
         if w.random() < 0.4 and tape["mps"][0][0] == "probs":
             t["mps"] = [["probs", list(reversed(tape["mps"][0][1]))]]
         return t, kind
